@@ -56,6 +56,7 @@ type c13Op struct {
 	Dur     bool    `json:"dur,omitempty"`
 	Ub      int64   `json:"ub,omitempty"` // bucketUpperBound argument
 	BigN    int     `json:"bign,omitempty"` // hist: BigN duration bounds 7, 14, 21, ... instead of B
+	BigTag  int     `json:"bigtag,omitempty"` // alloc: one more tag "big" with a value of BigTag bytes (beyond the UDP datagram limit: such a value can never be sent)
 	Pre     bool    `json:"pre,omitempty"`  // multi/shared: made by the main goroutine before the producers start
 	N       int     `json:"n,omitempty"`    // burst: N reports with the values V, V+1, ... through handle / bucket H
 }
@@ -544,11 +545,23 @@ func c13Run(c *c13Case, waitClock bool) (res c13Result) {
 	var classMu sync.Mutex
 
 	// one call; events and expectations are appended to producer p's lists
+	oversize := map[string]bool{} // names of metrics that cannot fit a datagram
 	do := func(p, idx int) {
 		o := &c.Ops[idx]
 		switch o.Op {
 		case "alloc":
 			m := c13TagMap(o)
+			if o.BigTag > 0 {
+				mm := map[string]string{"big": strings.Repeat("x", o.BigTag)}
+				for k, v := range m {
+					mm[k] = v
+				}
+				m = mm
+				classMu.Lock()
+				oversize[string(o.Name)] = true
+				res.NoModel = true
+				classMu.Unlock()
+			}
 			hd := &handle{op: o, tags: c13MapKey(m)}
 			var hi interface{}
 			switch o.K {
@@ -614,7 +627,9 @@ func c13Run(c *c13Case, waitClock bool) (res c13Result) {
 				hd.t.ReportTimer(time.Duration(o.V))
 			}
 			w.TAfter = time.Now().UnixNano()
-			wants[p] = append(wants[p], w)
+			if hd.op.BigTag == 0 { // a value that does not fit a datagram is outside the property's reach: neither required nor forbidden
+				wants[p] = append(wants[p], w)
+			}
 			f := uint32(0)
 			if hd.op.K == 2 {
 				f = 1 << 3
@@ -834,7 +849,7 @@ func c13Run(c *c13Case, waitClock bool) (res c13Result) {
 		}
 		for i := range b.Metrics {
 			m := &b.Metrics[i]
-			if strings.HasPrefix(m.Name, c13Internal) {
+			if strings.HasPrefix(m.Name, c13Internal) || oversize[m.Name] {
 				continue
 			}
 			w := &c13Want{Name: m.Name, Type: int64(m.Value.MetricType), Count: m.Value.Count, Gauge: fbits(m.Value.Gauge),
@@ -1135,6 +1150,45 @@ func c13GenHistBurst(r *Rng) c13Case {
 	}
 	if r.Bool() {
 		c.Ops = append(c.Ops, c13Op{Op: "flush"}, c13Op{Op: "burst", H: 1, N: n, V: 5000}, c13Op{Op: "rep", H: 2, V: 3})
+	}
+	return c
+}
+
+// one value that cannot fit a UDP datagram (a 70000-byte tag value), ordinary
+// values before and after it, one to three destinations: "every value ... appears in
+// exactly one emitted batch", "every datagram decodes as exactly one well-formed
+// one-way thrift message" — for the ordinary values and every datagram, at every
+// destination; the oversized value itself can never be sent and is not judged
+func c13GenOversize(r *Rng, i int) c13Case {
+	c := c13Case{Kind: "exact", Producers: 1, Proto: []string{"compact", "binary"}[i%2], Dests: 1 + i%3,
+		Queue: []int{4096, 1, 2}[r.Intn(3)], Service: "svc", Env: "test"}
+	c.Ops = []c13Op{
+		{Op: "alloc", K: 1, Name: "ok", Tags: map[B]B{"a": "b"}},
+		{Op: "hist", Name: "okh", Tags: map[B]B{"k": "v"}, B: []int64{1000, 2000}, Dur: true},
+		{Op: "alloc", K: 1 + r.Intn(3), Name: "oversized-metric", Tags: map[B]B{"t": "u"}, BigTag: r.Range(66000, 90000)},
+		{Op: "rep", H: 0, V: 1},
+	}
+	if r.Bool() {
+		c.Ops = append(c.Ops, c13Op{Op: "flush"})
+	}
+	v := int64(2)
+	for round, rounds := 0, r.Range(1, 2); round < rounds; round++ {
+		c.Ops = append(c.Ops, c13Op{Op: "rep", H: 2, V: 7})
+		for k, n := 0, r.Range(1, 3); k < n; k++ {
+			c.Ops = append(c.Ops, c13Op{Op: "rep", H: 0, V: v})
+			v++
+		}
+		if r.Bool() {
+			c.Ops = append(c.Ops, c13Op{Op: "samp", H: 1, Ub: 1500, Dur: true, V: v})
+			v++
+		}
+		c.Ops = append(c.Ops, c13Op{Op: "flush"}, c13Op{Op: "rep", H: 0, V: v})
+		v++
+		if r.Bool() {
+			c.Ops = append(c.Ops, c13Op{Op: "flush"})
+		}
+		c.Ops = append(c.Ops, c13Op{Op: "rep", H: 0, V: v})
+		v++
 	}
 	return c
 }
@@ -1602,6 +1656,10 @@ func init() {
 		}
 		for i, nh := 0, ctx.N(3, 20); i < nh; i++ {
 			c := c13GenHistBurst(ctx.R)
+			one(&c, false)
+		}
+		for i, no := 0, ctx.N(6, 36); i < no; i++ {
+			c := c13GenOversize(ctx.R, i)
 			one(&c, false)
 		}
 		// shared handles: small histories through the model, large ones by the direct predicate only
